@@ -123,8 +123,12 @@ impl<'a> std::io::Read for Chunked<'a> {
 }
 
 fn run(m: &grep_regex::RegexMatcher, input: &[u8], invert: bool, after: usize, before: usize, passthru: bool, strat: usize, refuse_at: usize) -> Result<(Vec<Ev>, bool, usize, usize), String> {
-    let mut searcher = SearcherBuilder::new().line_number(true).multi_line(true).invert_match(invert)
-        .after_context(after).before_context(before).passthru(passthru).build();
+    run_cfg(m, input, invert, after, before, passthru, strat, refuse_at, true, true)
+}
+
+fn run_cfg(m: &grep_regex::RegexMatcher, input: &[u8], invert: bool, after: usize, before: usize, passthru: bool, strat: usize, refuse_at: usize, bom_sniffing: bool, multi_line: bool) -> Result<(Vec<Ev>, bool, usize, usize), String> {
+    let mut searcher = SearcherBuilder::new().line_number(true).multi_line(multi_line).invert_match(invert)
+        .after_context(after).before_context(before).passthru(passthru).bom_sniffing(bom_sniffing).build();
     let mut rec = Rec::new(input, refuse_at);
     let r = match strat {
         0 => searcher.search_slice(m, input, &mut rec),
@@ -194,13 +198,16 @@ fn check_bom(pi: usize, tail: &[u8]) -> Option<String> {
     let m = RegexMatcherBuilder::new().multi_line(true).build(PATTERNS[pi]).unwrap();
     let mut input = vec![0xEF, 0xBB, 0xBF];
     input.extend_from_slice(tail);
-    let base = match run(&m, &input, false, 0, 0, false, 0, usize::MAX) { Ok(x) => x.0, Err(e) => return Some(e) };
-    for strat in 1..3 {
-        let evs = match run(&m, &input, false, 0, 0, false, strat, usize::MAX) { Ok(x) => x.0, Err(e) => return Some(e) };
-        if evs != base {
-            return Some(format!("input with a UTF-8 BOM: the {} strategy delivers {:?}, the slice strategy {:?}", STRATS[strat], evs, base));
+    // with and without BOM sniffing (`-E none` switches it off), multi-line and line-by-line searcher
+    for sniff in [true, false] { for ml in [true, false] {
+        let base = match run_cfg(&m, &input, false, 0, 0, false, 0, usize::MAX, sniff, ml) { Ok(x) => x.0, Err(e) => return Some(e) };
+        for strat in 1..3 {
+            let evs = match run_cfg(&m, &input, false, 0, 0, false, strat, usize::MAX, sniff, ml) { Ok(x) => x.0, Err(e) => return Some(e) };
+            if evs != base {
+                return Some(format!("input with a UTF-8 BOM (bom_sniffing={}, multi_line={}): the {} strategy delivers {:?}, the slice strategy {:?}", sniff, ml, STRATS[strat], evs, base));
+            }
         }
-    }
+    }}
     None
 }
 
